@@ -9,6 +9,7 @@ import Driver.FmtDrv
 import Driver.ValDrv
 import Driver.SelDrv
 import Driver.TmoDrv
+import Driver.DiscDrv
 import Driver.XmlDrv
 import Driver.FaultsDrv
 import Driver.LegsDrv
@@ -47,6 +48,9 @@ def main (args : List String) : IO UInt32 := do
     return 0
   | ["xml"] =>
     for l in lines do out.putStrLn (Cgreen.Drv.XM.evalLine l)
+    return 0
+  | ["discover"] =>
+    for l in lines do out.putStrLn (Cgreen.Drv.DS.evalLine l)
     return 0
   | ["timeout"] =>
     for l in lines do out.putStrLn (Cgreen.Drv.TM.evalLine l)
